@@ -36,9 +36,37 @@ def bounds(tier, seed):
             'canary_names': len(G.CANARY_NAMES), 'module_name_slice': 'index % 8 == seed % 8' if q else 'all'}
 
 
+CUSTOM = []
+
+
+def customise():
+    """subclasses of the shipped loaders with their own (calling) constructors, registered in both orders; none of it
+    may become visible through FullLoader / CFullLoader / full_load / full_load_all"""
+    import vf_canary
+    if CUSTOM:
+        return
+
+    def call_it(loader, node):
+        return vf_canary.f()
+
+    def call_multi(loader, suffix, node):
+        return vf_canary.f(suffix)
+    for i, Base in enumerate((yaml.FullLoader, yaml.CFullLoader, yaml.Loader, yaml.UnsafeLoader, yaml.SafeLoader)):
+        A = type('CustomA%d' % i, (Base,), {})
+        A.add_multi_constructor('!ca%d:' % i, call_multi)
+        A.add_constructor('!pa%d' % i, call_it)
+        B = type('CustomB%d' % i, (Base,), {})
+        B.add_constructor('!pb%d' % i, call_it)
+        B.add_multi_constructor('!cb%d:' % i, call_multi)
+        C = type('CustomC%d' % i, (A,), {})
+        C.add_constructor('!pc%d' % i, call_it)
+        CUSTOM.extend([A, B, C])
+
+
 def worker_init():
     global MON, NAMES
     import vf_canary
+    customise()
     MON = secmon.Monitor(harness_files=[__file__])
     corpus = []
     for t in G.CORE + G.PY_EXACT:
@@ -196,7 +224,7 @@ def plan(tier, seed):
     q = tier == 'quick'
     jobs = [('struct', i) for i in range(len(G.structural_tags()))]
     jobs += [('canary', i, k, 8) for i in range(len(G.PY_PREFIX)) for k in range(8)]
-    jobs += [('registered',)]
+    jobs += [('registered', k, 8) for k in range(8)]
     NS = 64
     for k in range(NS):
         if not q or k % 8 == seed % 8:
@@ -227,7 +255,9 @@ def run_job(job, T):
         if doc:
             T.sample('canary-names', {'doc': doc})
     elif kind == 'registered':
-        for full, multi in G.registered_tags(yaml.constructor.BaseConstructor):
+        for ti, (full, multi) in enumerate(G.registered_tags(yaml.constructor.BaseConstructor)):
+            if ti % job[2] != job[1]:
+                continue
             full2 = full + ('vf_canary.f' if multi else '')
             tag = '!<%s>' % full2
             short = '!!' + full2[len(G.Y):] if full2.startswith(G.Y) else tag
